@@ -54,8 +54,13 @@ class Contract:
                  use_at_calls=True, applicable=None, inline_fallback=False,
                  recursive_ok=False, fresh_result=False, may_raise_other=False,
                  opaque=None, merge=True, cuts=None, ghosts=None, ghost_init=None,
-                 on_yield=None, check_frames=True, note=""):
+                 on_yield=None, check_frames=True, regions=None, note=""):
         self.key = key
+        # regions: [{"name", "when" (clause over the pre-state), "ensures": [...]}]: inside a
+        # region the function is specified by the region's ensures INSTEAD of the general
+        # ones (used where the general clauses are known not to hold: a recorded finding);
+        # callers get  not when => general  and  when => region clauses
+        self.regions = list(regions or [])
         self.requires = _lst(requires)
         self.ensures = _lst(ensures)
         self.returns = returns
@@ -203,14 +208,17 @@ class Engine(ExprMixin, CallMixin, StmtMixin):
         return r
 
     # ------------------------------------------------------------ verify
-    def verify(self, key, case):
-        """Generate the VCs of function `key` for shape case `case`."""
+    def verify(self, key, case, region=None):
+        """Generate the VCs of function `key` for shape case `case` (outside every
+        region of the contract, or inside the named one)."""
         info = self.db.funcs[key]
         c = self.contracts[key]
         self.cur_func = info
         self.cur_contract = c
         self.cur_case = case.name
         self.cur_name = "%s[%s]" % (info.qualname, case.name)
+        if region is not None:
+            self.cur_name += ".region[%s]" % region
         self.frame_func = info
         self.depth = 0
         self.pending = []
@@ -244,6 +252,17 @@ class Engine(ExprMixin, CallMixin, StmtMixin):
             (s_, v) = self.ev1(self.parse(r), env, st)
             (s_, b), = self.truth(v, st)
             st.assume(b)
+        reg = None
+        for rg in c.regions:
+            (s_, v) = self.ev1(self.parse(rg["when"]), env, st)
+            (s_, b), = self.truth(v, st)
+            if rg["name"] == region:
+                reg = rg
+                st.assume(b)
+            else:
+                st.assume(z_not(b))
+        if region is not None and reg is None:
+            raise ContractBindingError("no region %s in the contract of %s" % (region, key))
         pre_sat = self.feasible(st.pc)
         wit = [(z3.Int(k) == v) if isinstance(v, int) else (z3.Real(k) == v)
                for k, v in case.witness.items()]
@@ -301,11 +320,20 @@ class Engine(ExprMixin, CallMixin, StmtMixin):
                     raise OutOfReach("forking result comparison")
                 self.oblige("%s.post[returns]%s" % (self.cur_name, tag), s,
                             eqs[0][1], kind="post")
+            if reg is not None:
+                # inside a region: the region's clauses are the specification; the general
+                # clauses are still generated (named .general.post[i]) so that what fails
+                # in the region is reported, against the recorded finding
+                for i, r in enumerate(reg["ensures"]):
+                    (s_, b) = self.ev1(self.parse(r), en2, s)
+                    (s_, b), = self.truth(b, s)
+                    self.oblige("%s.post[%d]%s" % (self.cur_name, i, tag), s, b, kind="post")
             for i, r in enumerate(ensures):
                 (s_, b) = self.ev1(self.parse(r), en2, s)
                 (s_, b), = self.truth(b, s)
-                self.oblige("%s.post[%d]%s" % (self.cur_name, i, tag), s, b,
-                            kind="post")
+                self.oblige("%s.%spost[%d]%s" % (self.cur_name,
+                                                 "general." if reg is not None else "",
+                                                 i, tag), s, b, kind="post")
             if c.modifies_self and c.mod_slots is not None and self.cur_self is not None:
                 now, was = s.obj(self.cur_self), old_heap[self.cur_self.id]
                 for k, val in now.slots.items():
